@@ -12,6 +12,7 @@ pub mod c09;
 pub mod c09b;
 pub mod c10;
 pub mod c11;
+pub mod c12;
 pub mod c13;
 pub mod c14;
 pub mod c15;
@@ -20,7 +21,7 @@ pub mod c17;
 pub mod c18;
 
 pub fn all_ids() -> Vec<&'static str> {
-    vec!["C01", "C02", "C03", "C04", "C05", "C06", "C07", "C08", "C09", "C10", "C11", "C13", "C14", "C15", "C16", "C17", "C18"]
+    vec!["C01", "C02", "C03", "C04", "C05", "C06", "C07", "C08", "C09", "C10", "C11", "C12", "C13", "C14", "C15", "C16", "C17", "C18"]
 }
 
 pub fn build(id: &str) -> Option<Property> {
@@ -36,6 +37,7 @@ pub fn build(id: &str) -> Option<Property> {
         "C09" => Some(c09::property()),
         "C10" => Some(c10::property()),
         "C11" => Some(c11::property()),
+        "C12" => Some(c12::property()),
         "C13" => Some(c13::property()),
         "C14" => Some(c14::property()),
         "C15" => Some(c15::property()),
